@@ -152,6 +152,7 @@ func c18Builders(p *Prog, r *Report) {
 			}
 		})
 	}
+	c18PointerToInterface(p, r)
 	r.Floor("R6f", "CmdType.SetDataForFunction call sites in the builders", nCmd, 1)
 	r.Floor("R6f", "FilterType.SetDataForFunction call sites in the builders", nFlt, 2)
 }
@@ -541,4 +542,79 @@ func fieldIndexOfValue(v ssa.Value) ssa.Value {
 		}
 	}
 	return nil
+}
+
+// c18PointerToInterface: the reflective setters convert the dynamic value of
+// their data argument to the type of the tagged field. A value boxed from a
+// pointer to an interface variable (&x with x of type any) can never be
+// converted: reflect.Value.Convert panics. The rule follows the data argument
+// through the wrappers that pass a parameter on.
+func c18PointerToInterface(p *Prog, r *Report) {
+	r.Rule("R6p", "no value handed (directly or through a forwarding wrapper) to the data parameter of a reflective SetDataForFunction is boxed from a pointer to an interface variable")
+	type slot struct {
+		fn  *ssa.Function
+		idx int // index into fn.Params
+	}
+	sinks := map[slot]bool{}
+	for _, typ := range []string{"CmdType", "FilterType"} {
+		if m := p.Method("model", typ, "SetDataForFunction"); m != nil {
+			sinks[slot{m, len(m.Params) - 1}] = true
+		}
+	}
+	if len(sinks) == 0 {
+		r.Undecided("R6p", "anchor:model.SetDataForFunction", "", "setters not found")
+		return
+	}
+	n := 0
+	seenSite := map[string]bool{}
+	for round := 0; round < 3; round++ {
+		added := false
+		for _, fn := range p.RepoFns("spine", "model") {
+			forEachCall(fn, func(site ssa.CallInstruction) {
+				callee := site.Common().StaticCallee()
+				if callee == nil {
+					return
+				}
+				for sl := range sinks {
+					if sl.fn != callee && (callee.Origin() == nil || sl.fn != callee.Origin()) {
+						continue
+					}
+					if sl.idx >= len(site.Common().Args) {
+						continue
+					}
+					arg := site.Common().Args[sl.idx]
+					if par, ok := arg.(*ssa.Parameter); ok {
+						for i, q := range fn.Params {
+							if q == par && !sinks[slot{fn, i}] {
+								sinks[slot{fn, i}] = true
+								added = true
+							}
+						}
+						continue
+					}
+					ofn := fn
+					if o := fn.Origin(); o != nil {
+						ofn = o
+					}
+					key := FnName(ofn) + "|" + originName(callee) + "|" + Path(arg)
+					if seenSite[key] {
+						continue
+					}
+					seenSite[key] = true
+					n++
+					bad := false
+					if mi, ok := arg.(*ssa.MakeInterface); ok {
+						if pt, ok := mi.X.Type().Underlying().(*types.Pointer); ok && types.IsInterface(pt.Elem()) {
+							bad = true
+						}
+					}
+					r.Check("R6p", key, !bad, p.InstrPos(site), "the data argument is the address of an interface variable: reflect cannot convert *interface{} to the field type and panics (pass the value itself)")
+				}
+			})
+		}
+		if !added {
+			break
+		}
+	}
+	r.Floor("R6p", "data arguments of the reflective setters", n, 2)
 }
